@@ -55,7 +55,7 @@ def runs(tier):
 
 
 def main(tier):
-    return poolcheck.run('C06', tier, runs(tier), ASSUME, RULE, traces=(800, 6, 6) if tier == 'quick' else (8000, 8, 60))
+    return poolcheck.run('C06', tier, runs(tier), ASSUME, RULE, traces=(800, 6, 24) if tier == "quick" else (8000, 8, 240))
 
 
 def selftest():
